@@ -138,6 +138,9 @@ func registerStrings(ex *Explorer) {
 		return strconv.FormatUint(asUint64(args[0]), int(asInt64(args[1])))
 	})
 	ex.register("strconv.ParseInt", func(fr *frame, args []value) value {
+		if t, ok := fr.i.ctx.tokenTerm(args[0].(string)); ok {
+			return tuple{mkScalar(fr.i.ctx, types.Int64, t), iface{}}
+		}
 		v, err := strconv.ParseInt(args[0].(string), int(asInt64(args[1])), int(asInt64(args[2])))
 		if err != nil {
 			return tuple{int64(0), fr.i.newError(err.Error())}
